@@ -43,6 +43,8 @@ properties! {
     "C07" => c07,
     "C08" => c08,
     "C09" => c09,
+    "C10" => c10,
+    "C11" => c11,
     "C15" => c15,
     "C18" => c18,
 }
